@@ -12,7 +12,7 @@ what is read back after every crash point is handed to TLC (Mode "judge") which 
 Integrity on the real observation; one further call after every crash is judged against Eff as well.  The number
 of writes of a call is reported by the harness (the crash points are k = 1..that number); where it differs from
 the model the evidence carries a MODEL-DRIFT note."""
-import json, os
+import json, os, shutil, tempfile
 from collections import Counter
 import storecmp
 import vlib
@@ -254,10 +254,28 @@ DURABLE = "acknowledged data lost or foreign data"
 PARTIAL = "element neither old nor new"
 
 
+def store_dir(ctx):
+    """where the harness creates its stores: a memory-backed directory when there is one (every top-level write
+    of Badger is an fsync; on a shared disk that dominates the run), else the scratch directory"""
+    d = getattr(ctx, "_c04_store_dir", None)
+    if d is None:
+        d = ctx.scratch
+        shm = os.environ.get("VERIF_C04_STORE_DIR", "/dev/shm")
+        if os.path.isdir(shm) and os.access(shm, os.W_OK):
+            try:
+                st = os.statvfs(shm)
+                if st.f_bavail * st.f_frsize > (4 << 30):
+                    d = tempfile.mkdtemp(prefix="verif_C04_", dir=shm)
+            except OSError:
+                pass
+        ctx._c04_store_dir = d
+    return d
+
+
 def run_harness(ctx, name, lines, jobs=12):
     inp = ctx.write_ndjson("%s_in.ndjson" % name, [dict(setup=True, driver=lines[0])] + lines[1])
     outp = os.path.join(ctx.scratch, "%s_out.ndjson" % name)
-    ctx.harness(["reopen", "-j", str(jobs), "-timeout", "120s"], input_path=inp, output_path=outp, timeout=3000)
+    ctx.harness(["reopen", "-j", str(jobs), "-timeout", "120s"], input_path=inp, output_path=outp, timeout=3000, env={"TMPDIR": store_dir(ctx)})
     outs = {o["i"]: o for o in ctx.read_ndjson(outp) if "i" in o}
     if len(outs) != len(lines[1]):
         raise Inconclusive("reopen harness answered %d of %d requests" % (len(outs), len(lines[1])))
@@ -277,6 +295,15 @@ def drivers(ctx):
 
 
 def run(ctx):
+    try:
+        _run(ctx)
+    finally:
+        d = getattr(ctx, "_c04_store_dir", None)
+        if d and d != ctx.scratch:
+            shutil.rmtree(d, ignore_errors=True)
+
+
+def _run(ctx):
     # ---------------------------------------------------------------- generate
     hs = restart_histories(ctx)
     states = crash_states(ctx)
